@@ -830,6 +830,10 @@ func (t *tokenizer) skipCommentsHandler() (bool, error) {
 	case '/':
 		return true, t.skipSingleLineComment()
 	case '*':
+		// Consume the '*' of the opener: it must not double as the '*' of a "*/" closer ("/*/").
+		if _, err := t.read(); err != nil {
+			return false, err
+		}
 		return true, t.skipBlockComment()
 	default:
 		return false, nil
